@@ -214,7 +214,7 @@ def kernel_Fq_Iq(reg, prop):
                 else:
                     goals.append(z3.BoolVal(F1 is None))
                 reg.prove("%s.Kernel.Fq.post.weighted_means.%s" % (prop, tag), pc + rng,
-                          z3.And(*goals), function=MOD + ".Kernel.Fq", nl=True)
+                          z3.And(*goals), function=MOD + ".Kernel.Fq", nl=True, replay=lambda mdl=None: replay_means())
                 reg.prove("%s.Kernel.Fq.forwards_arguments.%s" % (prop, tag), pc,
                           z3.BoolVal(log.get("cd") is details and log.get("vals") is values
                                      and log.get("cutoff") is cutoff and log.get("magnetic") is magnetic
@@ -271,3 +271,37 @@ def replay_alias():
                             "F2_then": keep[1].tolist(), "F2_after_second_call": np.asarray(r1[1]).tolist()})
     return bool(bad), {"call": "call_Fq(kernel, p1) ; call_Fq(kernel, p2) ; inspect the arrays returned by the first call",
                        "real": out, "spec": "unchanged by the second evaluation"}
+
+
+
+def replay_means():
+    """Real kernels with a cutoff that drops part of the mesh: I(q) and the reported volumes against the defining
+    weighted means over the kept points (monodisperse evaluations of the same kernel)."""
+    import itertools
+    import numpy as np
+    from sasmodels import core
+    from sasmodels.direct_model import call_kernel, call_Fq, get_mesh
+    q = np.array([0.01, 0.05, 0.2])
+    m = core.load_model("cylinder")
+    k = m.make_kernel([q])
+    pars = dict(radius=20.0, radius_pd=0.3, radius_pd_n=9, length=200.0, length_pd=0.25, length_pd_n=7,
+                scale=1.7, background=0.03)
+    cutoff = 1.3e-2
+    got = np.asarray(call_kernel(k, pars, cutoff=cutoff))
+    mesh = get_mesh(m.info, pars, dim="1d")
+    names = [p.name for p in m.info.parameters.call_parameters]
+    r_v, r_w = np.atleast_1d(mesh[names.index("radius")][1]), np.atleast_1d(mesh[names.index("radius")][2])
+    l_v, l_w = np.atleast_1d(mesh[names.index("length")][1]), np.atleast_1d(mesh[names.index("length")][2])
+    sw = sf = sv = 0.0
+    for (r, wr), (l, wl) in itertools.product(zip(r_v, r_w), zip(l_v, l_w)):
+        w = wr * wl
+        if w <= cutoff:
+            continue
+        F1, F2, R, Vs, ratio = call_Fq(k, dict(radius=float(r), length=float(l)), cutoff=0.0)
+        sw += w
+        sf = sf + w * np.asarray(F2)
+        sv += w * Vs
+    want = 1.7 * (sf / sw) / (sv / sw) + 0.03
+    bad = not np.allclose(got, want, rtol=1e-10)
+    return bool(bad), {"call": "call_kernel(cylinder, radius_pd=0.3 (9 pts), length_pd=0.25 (7 pts), cutoff=1.3e-2)",
+                       "real": got.tolist(), "spec": np.asarray(want).tolist(), "kept_weight": float(sw)}
